@@ -4,6 +4,7 @@ import (
 	"context"
 	"errors"
 	"fmt"
+	"io/fs"
 	"os"
 	"path/filepath"
 	"sort"
@@ -28,6 +29,28 @@ type TailOp struct {
 	Op  string `json:"op"` // delete, gc, reopen-new, reopen-fs, reopen-tar, push
 	N   int    `json:"n,omitempty"`
 	Fmt string `json:"fmt,omitempty"`
+	// Cancel: the context handed to the reopen / GC call is already cancelled (1) or,
+	// for reopen-fs, gets cancelled when the Cancel-th file is opened (>= 2). The
+	// call may refuse; if it returns nil the result is judged like any other.
+	Cancel int `json:"cancel,omitempty"`
+}
+
+// cancellingFS cancels a context when the n-th file is opened.
+type cancellingFS struct {
+	fs.FS
+	mu     sync.Mutex
+	n      int
+	cancel context.CancelFunc
+}
+
+func (c *cancellingFS) Open(name string) (fs.File, error) {
+	c.mu.Lock()
+	c.n--
+	if c.n == 0 {
+		c.cancel()
+	}
+	c.mu.Unlock()
+	return c.FS.Open(name)
 }
 
 // Case is one generated C07 case.
@@ -158,7 +181,17 @@ func genCase(store string) func(t *rapid.T) Case {
 					op = TailOp{Op: "reopen-fs"}
 				case 7:
 					op = TailOp{Op: "reopen-tar", Fmt: rapid.SampledFrom([]string{"ustar", "pax", "gnu"}).Draw(t, "fmt")}
-				default:
+				}
+				switch op.Op {
+				case "gc", "reopen-new", "reopen-fs", "reopen-tar":
+					if rapid.IntRange(0, 3).Draw(t, "cancelMode") == 2 {
+						op.Cancel = 1
+						if op.Op == "reopen-fs" {
+							op.Cancel = rapid.IntRange(1, 8).Draw(t, "cancelAt")
+						}
+					}
+				}
+				if op.Op == "" {
 					op = TailOp{Op: "push", N: rapid.SampledFrom(ids).Draw(t, "pushN")}
 					if rapid.IntRange(0, 2).Draw(t, "obstructed") == 0 {
 						// the index cannot be saved while this push runs (a directory
@@ -442,6 +475,30 @@ func runCase(c Case) (res vt.Result, fail *vt.Fail) {
 			if !live {
 				continue
 			}
+			if op.Cancel > 0 {
+				// GC under a context that is already cancelled. With at least one tagged
+				// node the first thing GC does is a context-aware walk, so it must refuse
+				// and leave the store as it was (without any tag the store's bookkeeping
+				// is rebuilt before the context is looked at: not judged)
+				named := 0
+				ociStore.Tags(ctx, "", func(ts []string) error { named += len(ts); return nil })
+				if named == 0 {
+					continue
+				}
+				cctx, cancel := context.WithCancel(ctx)
+				cancel()
+				var gerr error
+				fin, _ := vt.Watch(watchdog, func() { gerr = ociStore.GC(cctx) })
+				if !fin {
+					vt.Infra("%s: GC did not return (see C09)", when)
+				}
+				if gerr == nil {
+					res.Classes = append(res.Classes, "gc-under-cancelled-context-succeeded")
+				} else {
+					res.Classes = append(res.Classes, "gc-under-cancelled-context-refused")
+				}
+				break // judged below like any other step
+			}
 			finished, dump := vt.Watch(watchdog, func() {
 				if err := ociStore.GC(ctx); err != nil {
 					fail = vt.Failf("C07/gc-failed", "%s: %v", when, err)
@@ -458,6 +515,16 @@ func runCase(c Case) (res vt.Result, fail *vt.Fail) {
 			res.Classes = append(res.Classes, "gc")
 		case "reopen-new":
 			s, err := oci.New(filepath.Join(dir, "layout"))
+			if op.Cancel > 0 {
+				cctx, cancel := context.WithCancel(ctx)
+				cancel()
+				s, err = oci.NewWithContext(cctx, filepath.Join(dir, "layout"))
+				if err != nil {
+					res.Classes = append(res.Classes, "open-under-cancelled-context-refused")
+					continue
+				}
+				res.Classes = append(res.Classes, "open-under-cancelled-context-succeeded")
+			}
 			if err != nil {
 				return res, vt.Failf("C07/reopen-failed", "%s: %v", when, err)
 			}
@@ -484,7 +551,20 @@ func runCase(c Case) (res vt.Result, fail *vt.Fail) {
 			}
 			continue
 		case "reopen-fs":
-			s, err := oci.NewFromFS(ctx, os.DirFS(filepath.Join(dir, "layout")))
+			var s *oci.ReadOnlyStore
+			var err error
+			if op.Cancel > 0 {
+				cctx, cancel := context.WithCancel(ctx)
+				s, err = oci.NewFromFS(cctx, &cancellingFS{FS: os.DirFS(filepath.Join(dir, "layout")), n: op.Cancel, cancel: cancel})
+				cancel()
+				if err != nil {
+					res.Classes = append(res.Classes, "open-under-cancelled-context-refused")
+					continue
+				}
+				res.Classes = append(res.Classes, "open-under-cancelled-context-succeeded")
+			} else {
+				s, err = oci.NewFromFS(ctx, os.DirFS(filepath.Join(dir, "layout")))
+			}
 			if err != nil {
 				return res, vt.Failf("C07/reopen-failed", "%s: %v", when, err)
 			}
@@ -508,7 +588,20 @@ func runCase(c Case) (res vt.Result, fail *vt.Fail) {
 			if err := fsx.TarDirAppended(filepath.Join(dir, "layout"), tp, op.Fmt, false, stale); err != nil {
 				return res, vt.Failf("harness/tar", "%v", err)
 			}
-			s, err := oci.NewFromTar(ctx, tp)
+			octx := ctx
+			if op.Cancel > 0 {
+				cctx, cancel := context.WithCancel(ctx)
+				cancel()
+				octx = cctx
+			}
+			s, err := oci.NewFromTar(octx, tp)
+			if op.Cancel > 0 {
+				if err != nil {
+					res.Classes = append(res.Classes, "open-under-cancelled-context-refused")
+					continue
+				}
+				res.Classes = append(res.Classes, "open-under-cancelled-context-succeeded")
+			}
 			if err != nil {
 				return res, vt.Failf("C07/reopen-failed", "%s: %v", when, err)
 			}
